@@ -81,6 +81,9 @@ def run_script(args):
                 if cid in r.tasks and not r.tasks[cid].done():
                     await r.cancel(cid)
                 continue
+            if kinds == ("hostreset",):
+                await r.hostreset()
+                continue
             if kinds == ("silence",):
                 if await r.tick() is None:
                     continue
@@ -156,6 +159,12 @@ def run(ctx: Ctx):
                             continue
                         for wl, prefix in (("three", 6), ("staggered", 0)):
                             yield (wl, prefix, list(script[:pos]) + [cn] + list(script[pos:]) + ["silence", "cover", "cover"], (0x51, 11))
+        # a failed link, the host's RST, and sends submitted before the RSTACK arrives: still silent, still failing
+        for fail in (["error"], ["silence"] * int(maxatt), ["nak"] * int(maxatt), ["nak", "error"]):
+            for mid in (["silence"], [], ["cover"], ["nak"]):
+                for wl, prefix in (("staggered", 0), ("staggered", 5), ("three", 6)):
+                    yield (wl, prefix, fail + ["hostreset"] + mid + ["rstack", "cover", "cover", "cover"], (0x51, 11))
+                    yield (wl, prefix, fail + ["hostreset", "hostreset"] + mid + ["silence", "rstack", "cover", "cover"], (0x51, 11))
         # adaptive-timeout ramps: answers arriving just in time drive the timeout up; silence afterwards must still fire within the bounds
         for up in range(1, 9):
             for tail in (("silence",), ("silence", "silence"), ("slownak", "silence"), ("silence", "slowcover", "silence"), ("latecover",)):
